@@ -116,7 +116,7 @@ extern int cfgv_first; extern char cfgv_names[CFGV_MAXOPTS]; extern _Bool cfgv_e
 	&& __CPROVER_forall { int j_; (0 <= j_ && j_ < cfgv_first) ==> !CFGV_EQ(c, j_) })
 #endif
 static cfg_opt_t *cfg_getopt_leaf(cfg_t *cfg, const char *name)
-__CPROVER_requires(__CPROVER_is_fresh(cfg, sizeof(*cfg)) && name == cfgv_asked)
+__CPROVER_requires(__CPROVER_is_fresh(cfg, sizeof(*cfg)) && name == cfgv_asked && !__CPROVER_same_object(cfgv_asked, cfgv_names))
 __CPROVER_requires(cfg->opts == NULL || (CFGV_NAMED(cfg->opts) && CFGV_FIRST(cfg)))
 __CPROVER_assigns()
 __CPROVER_ensures(__CPROVER_return_value == ((cfg->opts && cfgv_first < cfgv_term_k) ? &cfg->opts[cfgv_first] : NULL));
